@@ -35,7 +35,7 @@ def corr_fire(chk, drv, pbc, n, *, label='fire', gen_kwargs=None, cfg_default=0.
                 shot.winds = [sg.gen_wind(pbc, rng) for _ in range(rng.randint(0, 3))]
             dist['reused-shot'] += 1
         else:
-            shot, _ = sg.gen_shot(pbc, rng, **(gen_kwargs or {}))
+            shot, _ = sg.gen_shot(pbc, rng, **(gen_kwargs(rng) if callable(gen_kwargs) else (gen_kwargs or {})))
         prev = shot
         if rng.random() < 0.4:
             sg.scramble_units(pbc, rng, shot)      # display units are not an input of any computation
